@@ -102,6 +102,12 @@ CLAIMS = {
          'Partial: totality of from_bitarray and of the ~270 execute() bodies is not a theorem; it is searched by whole-step runs '
          'over sampled words (all 2^16 Thumb halfwords in the thorough tier), which found and led to the repair of four crashes.'),
 
+ 'C19': ('proved for every value/mask/state: a PSR write executed in User mode leaves the mode, A/I/F, every other system '
+         'register, the general and MPU registers and memory unchanged; an SVC from User mode enters Supervisor mode with '
+         'SPSR_svc.M = User; the unprivileged load/store primitives access memory with User permissions whatever the mode '
+         '(the AP check itself is C14).',
+         'Partial: that no instruction word at all lets User mode change privileged state is not a theorem (it would need every '
+         'execute() body); it is searched by whole steps from User mode over sampled words with a confinement predicate.'),
  'C20': ('isolation proved for the regenerated model: under every interleaving of the steps of any number of instances each '
          'instance reaches exactly the state it reaches alone (determinism is by construction: a step is a function of the '
          'instance configuration and state); the implementation is compared with that model and with its own solo runs on '
